@@ -176,6 +176,34 @@ def collisions(rep) -> None:
             if len(mods) < items and not r["diags"]:
                 rep.violate(f"C07/two-into-one/same-class-name/{'equal' if sb is same or sb is None else 'different'}-content",
                             f"schemas {a!r} and {b!r} ({items} models) collapsed into {mods} without a diagnostic", doc=doc, modules=mods)
+        # classes of DIFFERENT kinds that derive one name: a component model / enum against an inline enum / model named after its parent and property,
+        # an enum parameter named after its operation, a titled enum - in both declaration orders
+        S_ = {"type": "string"}
+        en = lambda *v: {"type": "string", "enum": list(v)}
+        obj = lambda **p: {"type": "object", "properties": p}
+        ok = {"200": {"description": "d"}}
+        kinds = {
+            "model-vs-inline-enum": ({"OrderStatus": obj(code=S_), "Order": obj(status=en("open", "closed"))}, {}),
+            "enum-vs-inline-model": ({"OrderStatus": en("x", "y"), "Order": obj(status=obj(code=S_))}, {}),
+            "model-vs-inline-model": ({"OrderStatus": obj(code=S_), "Order": obj(status=obj(other={"type": "integer"}))}, {}),
+            "enum-vs-inline-enum": ({"OrderStatus": en("x", "y"), "Order": obj(status=en("open", "closed"))}, {}),
+            "model-vs-parameter-enum": ({"ListThingsMode": obj(code=S_)}, {"/things": {"get": {"operationId": "listThings", "parameters": [{"name": "mode", "in": "query", "schema": en("fast", "slow")}], "responses": ok}}}),
+            "model-vs-titled-enum": ({"Shared": obj(code=S_), "Holder": obj(kind=dict(en("k1", "k2"), title="Shared"))}, {}),
+            "model-vs-response-model": ({"GetThingResponse200": obj(code=S_)}, {"/thing": {"get": {"operationId": "getThing", "responses": {"200": {"description": "d", "content": {"application/json": {"schema": obj(inline={"type": "integer"})}}}}}}}),
+        }
+        for label, (schemas, paths) in kinds.items():
+            for order in ("as-written", "reversed"):
+                sch = schemas if order == "as-written" else dict(reversed(list(schemas.items())))
+                doc = gen.mkdoc(schemas=sch, paths=paths)
+                out = d / f"k{abs(hash((label, order))) % 100000}"
+                r = gen.generate(doc, out)
+                snap = gen.snapshot(out, content=True)
+                defs = [p for p, b in snap.items() if p.startswith("models/") and p.endswith(".py") and not p.endswith("__init__.py") and isinstance(b, bytes) and b"\nclass " in b]
+                want = len(schemas) + 1          # every component and the one inline / parameter / response class
+                rep.count(1, ("kindcol", label, order))
+                if len(defs) < want and not r["diags"] and not r["exc"]:
+                    rep.violate(f"C07/two-into-one/class-kinds/{label}", f"{label} ({order}): {want} classes are described, {len(defs)} modules define one ({sorted(defs)}) and nothing is reported",
+                                doc=doc, modules=defs)
         # a single-reference wrapper that ALSO declares something of its own (properties, required, additionalProperties): not a pure alias
         for k, (label, extra) in enumerate([("properties", {"properties": {"own": {"type": "string"}}}), ("required", {"required": ["b"]}),
                                             ("typed-additional-properties", {"additionalProperties": {"type": "integer"}})]):
